@@ -178,6 +178,26 @@ func (p *proc) call(line []byte, tmo time.Duration) ([]byte, string) {
 	}
 }
 
+const maxRSSMB = 1500
+
+func rssMB(pid int) int {
+	b, err := os.ReadFile(fmt.Sprintf("/proc/%d/statm", pid))
+	if err != nil {
+		return 0
+	}
+	f := strings.Fields(string(b))
+	if len(f) < 2 {
+		return 0
+	}
+	var pages int
+	fmt.Sscanf(f[1], "%d", &pages)
+	return pages * 4 / 1024
+}
+
+func goDied(stderr string) bool {
+	return strings.Contains(stderr, "panic: ") || strings.Contains(stderr, "fatal error: ") || strings.Contains(stderr, "goroutine ")
+}
+
 var frameRe = regexp.MustCompile(`(?m)^(github\.com/bmeg/grip[^\s(]*|verifharness[^\s(]*)\(`)
 
 // Site extracts a short, stable crash site from a Go panic trace: the panic
@@ -242,9 +262,38 @@ func runSupervisor(name string, jobs int, tmo time.Duration, extra []string) {
 			fmt.Fprintf(os.Stderr, "sup: worker %d could not boot: %s\n", id, p.errBuf.String())
 			os.Exit(3)
 		}
+		n := 0
 		for j := range work {
+			n++
+			if n%10 == 0 && rssMB(p.cmd.Process.Pid) > maxRSSMB {
+				// the engine's temporary stores are not freed promptly: recycle the worker
+				p.kill()
+				if !boot() {
+					fmt.Fprintf(os.Stderr, "sup: worker %d could not reboot\n", id)
+					os.Exit(3)
+				}
+			}
 			p.errBuf.Reset()
 			resp, bad := p.call(j.line, tmo)
+			if bad == "crash" && !goDied(p.errBuf.String()) {
+				// died without a Go panic/fatal message (e.g. killed by the OS): not an
+				// observation about grip - retry once on a fresh worker
+				time.Sleep(100 * time.Millisecond)
+				if !goDied(p.errBuf.String()) {
+					p.kill()
+					if !boot() {
+						os.Exit(3)
+					}
+					p.errBuf.Reset()
+					resp, bad = p.call(j.line, tmo)
+					if bad == "crash" {
+						time.Sleep(100 * time.Millisecond)
+						if !goDied(p.errBuf.String()) {
+							bad = "died"
+						}
+					}
+				}
+			}
 			if bad != "" {
 				var req map[string]interface{}
 				json.Unmarshal(j.line, &req)
